@@ -53,9 +53,9 @@ def SPc.code : SPc → Nat
 def SPc.uncode : Nat → SPc
   | 0 => .init | 1 => .spawn | 2 => .store | 3 => .sel | 4 => .parked | 5 => .cool | 6 => .respawn | 7 => .clear | _ => .done
 def CPc.code : CPc → Nat
-  | .idle => 0 | .load => 1 | .svcClose => 2 | .waitDone => 3 | .signal => 4 | .ret => 5
+  | .idle => 0 | .load => 1 | .svcClose => 2 | .waitDone => 3 | .signal => 4 | .ret => 5 | .drain => 6
 def CPc.uncode : Nat → CPc
-  | 0 => .idle | 1 => .load | 2 => .svcClose | 3 => .waitDone | 4 => .signal | _ => .ret
+  | 0 => .idle | 1 => .load | 2 => .svcClose | 3 => .waitDone | 4 => .signal | 6 => .drain | _ => .ret
 def Svc.code : Svc → Nat
   | .unstarted => 0 | .starting => 1 | .started => 2 | .stopping => 3 | .stopped => 4
 def Svc.uncode : Nat → Svc
@@ -75,7 +75,7 @@ def n2b (n : Nat) : Bool := n != 0
 def encode (c : Core) : Nat :=
   c.spc.code + 9 * (b2n c.running + 2 * (bufToNat c.buf + 5 * (c.svc.code + 5 * (b2n c.stopReq + 2 * (b2n c.done + 2 *
   (c.nCall % 4 + 4 * (c.nStarting % 4 + 4 * (c.nRun % 4 + 4 * (c.nSendNil % 4 + 4 * (c.nSendErr % 4 + 4 * (c.nSendStopped % 4 + 4 *
-  (c.cpc.code + 6 * (b2n c.svcErr + 2 * (c.cres.code + 4 * (b2n c.dropped + 2 * (b2n c.panicked + 2 * (b2n c.latched + 2 * b2n c.latch)))))))))))))))))
+  (c.cpc.code + 7 * (b2n c.svcErr + 2 * (c.cres.code + 4 * (b2n c.dropped + 2 * (b2n c.panicked + 2 * (b2n c.latched + 2 * b2n c.latch)))))))))))))))))
 
 def decode (k : Nat) : Core :=
   let spc := k % 9; let k := k / 9
@@ -90,7 +90,7 @@ def decode (k : Nat) : Core :=
   let nSendNil := k % 4; let k := k / 4
   let nSendErr := k % 4; let k := k / 4
   let nSendStopped := k % 4; let k := k / 4
-  let cpc := k % 6; let k := k / 6
+  let cpc := k % 7; let k := k / 7
   let svcErr := k % 2; let k := k / 2
   let cres := k % 4; let k := k / 4
   let dropped := k % 2; let k := k / 2
@@ -157,15 +157,19 @@ theorem allK {K : List Nat} {P : Core → Bool} (h : K.all (fun k => P (decode k
 /-! ### the potential that bounds the system's own steps -/
 
 def wS : SPc → Nat
-  | .done => 0 | .clear => 1 | .parked => 2 | .sel => 3 | .store => 4 | .respawn => 11 | .cool => 12 | .spawn => 12 | .init => 13
+  | .done => 0 | .clear => 1 | .parked => 2 | .sel => 3 | .store => 4 | .respawn => 12 | .cool => 13 | .spawn => 13 | .init => 14
 def wBuf : Option Msg → Nat
-  | none => 0 | some m => wS (afterRecv m)
-def wC : CPc → Nat
-  | .idle => 0 | .ret => 0 | .signal => 2 | .waitDone => 3 | .svcClose => 4 | .load => 5
+  | none => 0 | some m => wS (afterRecv m) + 1
+/-- Close's loop: a failed send attempt (channel full) is paid for by the message that is then taken out of the channel —
+    by the drain step, or by serviceStart, whose receive leaves two units for a drain attempt that finds nothing -/
+def wC (cpc : CPc) (buf : Option Msg) : Nat :=
+  match cpc with
+  | .idle => 0 | .ret => 0 | .signal => 4 | .waitDone => 5 | .svcClose => 6 | .load => 7
+  | .drain => if buf = none then 5 else 3
 
 /-- every system step strictly lowers `potential` (Props: `system_steps_terminate`) -/
 def potential (c : Core) : Nat :=
-  wS c.spc + wBuf c.buf + wC c.cpc + 7 * c.nCall + 6 * c.nStarting + 5 * c.nRun + 4 * c.nSendNil + 4 * c.nSendErr + 13 * c.nSendStopped
+  wS c.spc + wBuf c.buf + wC c.cpc c.buf + 8 * c.nCall + 7 * c.nStarting + 6 * c.nRun + 5 * c.nSendNil + 5 * c.nSendErr + 15 * c.nSendStopped
 
 /-- every step the system takes on its own strictly lowers `potential`, in every state -/
 theorem potential_decreases (c c' : Core) (l : CLabel) (hl : l ∈ sysLabels) (h : stepCore c l = some c') :
@@ -186,6 +190,10 @@ theorem potential_decreases (c c' : Core) (l : CLabel) (hl : l ∈ sysLabels) (h
   all_goals (try (rename_i m; cases m))
   all_goals (simp only [potential, wS, wBuf, wC, afterRecv])
   all_goals (try omega)
+  all_goals (try ((repeat' split) <;> simp_all <;> omega))
+  all_goals (cases buf)
+  all_goals (try (rename_i m; cases m))
+  all_goals (first | (simp; done) | (simp; omega))
 
 /-! ### Close never waits for ever -/
 
@@ -233,6 +241,7 @@ theorem nb_terminal (c : Core) (hn : NB c) (ht : terminal c = true) : c.cpc = .i
     have := terminal_none (l := .cSignal) ht (by decide); simp [stepCore] at this
     repeat' split at this
     all_goals simp at this
+  case drain => have := terminal_none (l := .cDrain) ht (by decide); simp [stepCore] at this
   case waitDone =>
     have h1 := terminal_none (l := .cWaitDone) ht (by decide)
     have h2 := terminal_none (l := .gStopSeen) ht (by decide)
